@@ -200,6 +200,15 @@ pub fn dir_requests(ctx: &mut Ctx, rng: &mut Rng) {
         if sel.is_empty() {
             sel.push(all[rng.below(all.len())]);
         }
+        // one run in eight names a pattern more than once (adjacent or not): the code then lists its findings once
+        // per mention, whatever the order
+        if k % 8 == 5 {
+            let dup = sel[rng.below(sel.len())];
+            sel.push(dup);
+            if rng.chance(1, 2) {
+                sel.push(dup);
+            }
+        }
         rng.shuffle(&mut sel);
         // per-file analysis table (each pattern alone, two different file numbers: C15)
         let mut gt: Vec<String> = vec![];
